@@ -10,8 +10,9 @@ syntactic `SynHeader` / `FunHeader`, and the two isolation conditions `hbefore` 
 `canonical_header_extracted` discharged from conditions on the token list:
 
 * `hafter` from "no `Name (` strictly inside the parameter list";
-* `hbefore` from "the header is followed by a token, and its name token does not have the text
-  `)`" (`SynHeader.no_earlier_finish_inside`).
+* `hbefore` from "the header is followed by a token" (`SynHeader.no_earlier_finish_inside`; the
+  name token is a name token, hence not the punctuation token `)` that could close a group of an
+  earlier attempt).
 -/
 namespace CL.Syn
 open CL.Compose CL.C01disc
@@ -39,13 +40,12 @@ theorem sound_cExpr (hL : L ∈ Gen.all.map (·.2)) (hpats : L.pats = [⟨cExpr,
   exact hn
 
 /-- a syntactic header that passes the follow-up test and the previous-keyword filter, is
-followed by a token, has no `Name (` strictly inside its parameter list, and whose name token is
-not the text `)`, is extracted, exactly once -/
+followed by a token and has no `Name (` strictly inside its parameter list, is extracted, exactly
+once -/
 theorem complete_cExpr (hL : L ∈ Gen.all.map (·.2)) (hpats : L.pats = [⟨cExpr, fo⟩])
     {toks : List Tok} {hs : List Header} (h : extractHeaders L toks = .ok hs) {p f : Nat}
     (hsyn : SynHeader toks p f) (hfo : FollowsAt fo toks f) (hlt : f < toks.length)
     (hprev : PrevOk L toks p)
-    (hname : ∀ t, toks[p]? = some t → isClose t = false)
     (hnocall : ∀ q, p < q → q + 2 < f → ¬ (NameAt toks q ∧ OpenAt toks (q + 1))) :
     ∃ hd ∈ hs, hd.rng = ⟨p, f⟩ ∧ toks[p]? = some hd.name ∧
       ∀ hd' ∈ hs, hd'.rng.s = p → hd' = hd := by
@@ -53,7 +53,7 @@ theorem complete_cExpr (hL : L ∈ Gen.all.map (·.2)) (hpats : L.pats = [⟨cEx
   have hiff := greedyAt_iff_synHeader compile_cExpr toks
   obtain ⟨hd, hhd, hr, hnm, huniq⟩ := canonical_header_extracted L hL ⟨cExpr, fo⟩ hhp cDfa
     compile_cExpr toks hs h p f ((hiff p f).2 hsyn)
-    (fun q f' hq hg => hsyn.no_earlier_finish_inside hlt hname hq ((hiff q f').1 hg))
+    (fun q f' hq hg => hsyn.no_earlier_finish_inside hlt hq ((hiff q f').1 hg))
     (by
       intro q f' hq hg hlt'
       have hs' := (hiff q f').1 hg
@@ -86,8 +86,8 @@ theorem keywordAt_not_close {toks : List Tok} {i : Nat} (hk : KeywordAt toks i
   intro t ht
   obtain ⟨t', ht', hk'⟩ := hk
   rw [ht] at ht'; cases ht'
-  simp only [Bool.and_eq_true, beq_iff_eq] at hk'
-  simp [isClose, hk'.2]
+  simp only [Tok.isKeyword, Bool.and_eq_true, beq_iff_eq] at hk'
+  simp [isClose, Tok.isSymbol, hk'.1]
 
 /-- the range `[p, f)` of a function header, from the position `n` of its name -/
 def funStart (toks : List Tok) (n : Nat) : Nat :=
@@ -142,7 +142,7 @@ theorem sound_fExpr (hL : L ∈ Gen.all.map (·.2)) (hhp : (⟨fExpr, fo⟩ : He
 
 /-- the two isolation conditions for a function header whose name is at `n` -/
 theorem fun_isolated {toks : List Tok} {n f : Nat} (hsyn : SynHeader toks n f)
-    (hlt : f < toks.length) (hname : ∀ t, toks[n]? = some t → isClose t = false)
+    (hlt : f < toks.length)
     (hnocall : ∀ q, n < q → q + 2 < f → ¬ (NameAt toks q ∧ OpenAt toks (q + 1))) :
     (∀ q f', q < funStart toks n → FunHeader toks q f' → ¬ (funStart toks n < f' ∧ f' ≤ f)) ∧
     (∀ q f', funStart toks n < q → FunHeader toks q f' → ¬ f' < f) := by
@@ -162,7 +162,7 @@ theorem fun_isolated {toks : List Tok} {n f : Nat} (hsyn : SynHeader toks n f)
     rcases hstart with he | ⟨hpos, hk, he⟩
     · rw [he] at hq hin
       rcases Nat.lt_or_ge q' n with hlt' | hge
-      · exact hsyn.no_earlier_finish_inside hlt hname hlt' hsyn' hin
+      · exact hsyn.no_earlier_finish_inside hlt hlt' hsyn' hin
       · -- `q' = n = q + 1`: the earlier attempt is `function Name ( ...` itself
         have hqn : q' = n := by omega
         have hq1 : q + 1 = n := by omega
@@ -170,7 +170,7 @@ theorem fun_isolated {toks : List Tok} {n f : Nat} (hsyn : SynHeader toks n f)
         · have := hsyn.finish_unique (hqn ▸ hsyn')
           have h2 := h.len; have h3 := hsyn.len
           -- `SynHeader toks q f'` with `q < n < f'`: excluded like any earlier header
-          exact hsyn.no_earlier_finish_inside hlt hname (by omega) h hin
+          exact hsyn.no_earlier_finish_inside hlt (by omega) h hin
         · -- the keyword `function` directly before the name: excluded by `funStart`
           have hfs : funStart toks n = n - 1 := by
             unfold funStart
@@ -186,7 +186,7 @@ theorem fun_isolated {toks : List Tok} {n f : Nat} (hsyn : SynHeader toks n f)
       obtain ⟨_, hnext⟩ := hsyn'.enclosing hq'k hin.1 (keywordAt_not_close hk)
       have hlen := hsyn.len
       have : n - 1 + 1 < f' := hnext (by omega)
-      exact hsyn.no_earlier_finish_inside hlt hname hq'n hsyn' ⟨by omega, hin.2⟩
+      exact hsyn.no_earlier_finish_inside hlt hq'n hsyn' ⟨by omega, hin.2⟩
   · intro q f' hq hfun hlt'
     have hqn : n ≤ q := by
       rcases hstart with he | ⟨_, _, he⟩ <;> omega
@@ -206,18 +206,17 @@ theorem fun_isolated {toks : List Tok} {n f : Nat} (hsyn : SynHeader toks n f)
         exact keywordAt_not_nameAt hk hsyn.1
 
 /-- a function header `[function] Name ( ... )` that passes the follow-up test, is followed by a
-token, has no `Name (` strictly inside its parameter list, and whose name token is not the text
-`)`, is extracted, exactly once; its range starts at the keyword `function` when there is one -/
+token and has no `Name (` strictly inside its parameter list, is extracted, exactly once; its
+range starts at the keyword `function` when there is one -/
 theorem complete_fExpr (hL : L ∈ Gen.all.map (·.2)) (hhp : (⟨fExpr, fo⟩ : HeaderPat) ∈ L.pats)
     (hprev : L.prevKw = none)
     {toks : List Tok} {hs : List Header} (h : extractHeaders L toks = .ok hs) {n f : Nat}
     (hsyn : SynHeader toks n f) (hfo : FollowsAt fo toks f) (hlt : f < toks.length)
-    (hname : ∀ t, toks[n]? = some t → isClose t = false)
     (hnocall : ∀ q, n < q → q + 2 < f → ¬ (NameAt toks q ∧ OpenAt toks (q + 1))) :
     ∃ hd ∈ hs, hd.rng = ⟨funStart toks n, f⟩ ∧ toks[n]? = some hd.name ∧
       ∀ hd' ∈ hs, hd'.rng.s = funStart toks n → hd' = hd := by
   have hiff := greedyAt_iff_funHeader compile_fExpr toks
-  obtain ⟨hb, ha⟩ := fun_isolated hsyn hlt hname hnocall
+  obtain ⟨hb, ha⟩ := fun_isolated hsyn hlt hnocall
   obtain ⟨hd, hhd, hr, hnm, huniq⟩ := canonical_header_extracted L hL ⟨fExpr, fo⟩ hhp fDfa
     compile_fExpr toks hs h (funStart toks n) f ((hiff _ f).2 (funHeader_funStart hsyn))
     (fun q f' hq hg => hb q f' hq ((hiff q f').1 hg))
